@@ -143,7 +143,7 @@ type cyShardRT struct {
 // serve puts the scripted shard behind a real HTTP server.  A scripted failure of a request is a transport failure
 // (the connection is closed without an answer) or, for every other one, an error answer of the sidecar's API.
 func (s *cyShardRT) serve() *httptest.Server {
-	nfail := 0
+	nfail := (len(s.in.Report) + int(s.in.Head) + int(s.in.Proc)) % 3 // which kind of failure comes first differs from shard to shard
 	lastKilled := ""
 	fail := func(w http.ResponseWriter, err error) {
 		nfail++
@@ -163,7 +163,14 @@ func (s *cyShardRT) serve() *httptest.Server {
 			s.mu.Unlock()
 			nfail--
 		}
-		if nfail%2 == 1 {
+		if nfail%3 == 2 {
+			// an error answer that is not the sidecar's own: a gateway or mesh in between reports the failure in its own JSON
+			w.Header().Set("Content-Type", "application/json")
+			w.WriteHeader(502)
+			_, _ = w.Write([]byte(`{"code":502,"message":"upstream connect error or disconnect/reset before headers"}`))
+			return
+		}
+		if nfail%3 == 1 {
 			lastKilled = key
 			if hj, ok := w.(*keyedWriter).ResponseWriter.(http.Hijacker); ok {
 				if conn, _, e := hj.Hijack(); e == nil {
